@@ -61,7 +61,8 @@ def generate(rng, tier):
         yield {"order": order, "shape": shape, "kind": kind, "algo": algo, "shift": shift, "crpix_seed": rng.randrange(1000),
                "as": as_,
                "shape_out": so,
-               "footprint": rng.random() < 0.5}
+               "footprint": rng.random() < 0.5,
+               "pre": ([rng.randint(0, 3) for _ in shape] if rng.random() < 0.3 else None)}
 
 
 def make_wcs(order, shape, seed, with_shape=True):
@@ -94,6 +95,19 @@ def run(case):
     data = C.payload(shape, 0).astype(dtype)
     tags.append(f"dtype={dtype}")
     cube = NDCube(data.copy(), wcs=w, unit=u.ct, meta={"origin": "c20"})
+    if case.get("pre"):
+        # the source is itself the result of slicing a larger cube by ranges (other starts on every axis): the same
+        # data and the same coordinates as the fresh cube above, reached through the wrapper slicing leaves behind
+        starts = list(case["pre"])
+        big_shape = tuple(s0 + n + 1 for s0, n in zip(starts, shape))
+        w_big = make_wcs(case["order"], big_shape, case["crpix_seed"])
+        w_big.wcs.crpix = w_big.wcs.crpix + np.array(starts[::-1], dtype=float)
+        w_big.wcs.set()
+        big = np.full(big_shape, -7).astype(dtype)
+        box = tuple(slice(s0, s0 + n) for s0, n in zip(starts, shape))
+        big[box] = data
+        cube = NDCube(big, wcs=w_big, unit=u.ct, meta={"origin": "c20"})[box]
+        tags.append("source=sliced")
     cube.global_coords.add("g", "custom:g", 2 * u.kg)
     # ---- target
     t_order = list(case["order"])
